@@ -6,7 +6,7 @@ ALL = [f'C{i:02d}' for i in range(1, 20)]
 
 CHECKS = {
  'C06': dict(
-   technique='Coq proof (wall depths form a deltaz-net: Q arithmetic on n_repeat = ceil((h-z_off)/deltaz); chain files hold only moves) + token-level differential of every file of the exported tree + run of the whole tree (FARCALL inlined) on the reference controller + shapely containment of the chains',
+   technique='Coq proof (wall depths form a deltaz-net: Q arithmetic on n_repeat = ceil((h-z_off)/deltaz); chain files hold only moves) + token-level differential of every file of the exported tree + run of the whole tree (FARCALL inlined) on the reference controller + shapely containment of the chains + source translator: TrenchColumn.n_repeat is re-translated from /repo on every run and proved to be the ceiling the depth-net theorems are about (coq/tie/EquivTc.v)',
    text='Props/C06.v: passes of a level are deltaz apart, start at z_off, the last pass of each level is within deltaz of the top of '
         'its box and the next level starts at most deltaz above it, never above the box top - so no depth of the stack is farther '
         'than deltaz from a wall pass; wall / floor / bed files contain only G1 moves. Tie to /repo: real (U-)trench columns dug '
@@ -22,7 +22,7 @@ CHECKS = {
         'chains stay inside the footprints is geometry, decided by shapely on instances.',
    design='5/C06'),
  'C05': dict(
-   technique='Coq proof (stable sort = sorted permutation; removal by number via python del semantics; clearance by the triangle inequality in any metric space) + differential of the list logic with recomputed GEOS blocks + shapely measurements',
+   technique='Coq proof (stable sort = sorted permutation; removal by number via python del semantics; clearance by the triangle inequality in any metric space) + differential of the list logic with recomputed GEOS blocks + shapely measurements + source translator: TrenchColumn.adj_bridge is re-translated from /repo on every run and proved to be bridge/2 + waist + corner (coq/tie/EquivTc.v)',
    text='Props/C05.v: the blocks are numbered by non-decreasing lowest y and are exactly those the geometry produced; the removal '
         'list is used as a strictly decreasing set and, for numbers in range, deletes exactly the blocks with those numbers '
         'keeping the order of the others; a block cut out farther than a from the waveguides and grown by rho stays farther '
@@ -148,7 +148,7 @@ CHECKS = {
         'writer calls.',
    design='5/C16'),
  'C08': dict(
-   technique='Coq proof (Nasu pass order as an arithmetic characterisation; REPEAT executes its body n times) + token-level differential of the _WG/_NASU/_MK files through the session model + controller monitors + file-system naming check',
+   technique='Coq proof (Nasu pass order as an arithmetic characterisation; REPEAT executes its body n times) + token-level differential of the _WG/_NASU/_MK files through the session model + controller monitors + file-system naming check + source translator: NasuWaveguide.adj_scan_order is re-translated from /repo on every run and proved equal to the model\'s pass order (coq/tie/EquivNw.v)',
    text='Props/C08.v: the Nasu pass offsets are exactly {k/2 : |k| <= n-1, k = n-1 mod 2} (n entries, symmetric, one shift apart, '
         'centred), ordered outward, feed and shutter untouched; the writer op lists are one REPEAT(scan) block per group / marker; '
         'the controller runs a REPEAT body n times. Tie to /repo: WaveguideWriter / NasuWriter / MarkerWriter .pgm() are run on '
@@ -171,7 +171,7 @@ CHECKS = {
         'generated away from integer quotients.',
    design='5/C14'),
  'C13': dict(
-   technique='Coq proof over Q (ceiling arithmetic, nra) + differential on num_subdivisions and on the stored blocks of every curved primitive',
+   technique='Coq proof over Q (ceiling arithmetic, nra) + differential on num_subdivisions and on the stored blocks of every curved primitive + source translator: LaserPath.num_subdivisions is re-translated from /repo on every run and proved equal to the model\'s num_sub (coq/tie/EquivLp.v)',
    text='Props/C13.v: for every rational length and step, n = ceil(len/dl) >= 2 uniform samples are more than one and at most '
         'two steps apart; the 3-point fallback is used exactly when len <= dl; the time between samples exceeds 1/cmd_rate_max; '
         'linspace has a constant step. Tie to /repo: num_subdivisions is compared exactly with the rational model on random and '
